@@ -313,6 +313,44 @@ def run_asgi(path, mapping, ep, wrapped):
     return _classify(eng.hits, hits['wrapped'], sent[0]['status'], hdrs.get('content-type'), sent[1].get('body', b''))
 
 
+def run_asgi_ws(path, mapping, ep):
+    """A WebSocket scope with a wrapped application present: under the endpoint it is the engine's, anywhere else the wrapped
+    application's - static files are an HTTP matter."""
+    import engineio
+    eng = AsyncEngineStub()
+    hits = {'wrapped': 0}
+
+    async def other(scope, receive, send):
+        hits['wrapped'] += 1
+        await send({'type': 'websocket.close'})
+    app = engineio.ASGIApp(eng, other, static_files=mapping, engineio_path=ep)
+    sent = []
+    state = {'n': 0}
+
+    async def receive():
+        state['n'] += 1
+        if state['n'] > 3:
+            raise _End()
+        return {'type': 'websocket.connect'} if state['n'] == 1 else {'type': 'websocket.disconnect', 'code': 1000}
+
+    async def send(ev):
+        sent.append(ev)
+    scope = {'type': 'websocket', 'path': path, 'query_string': b'', 'headers': [], 'scheme': 'ws'}
+    try:
+        drive(app(scope, receive, send))
+    except report.HarnessError:
+        raise
+    except _End:
+        pass
+    except Exception as e:
+        return {'who': 'exception', 'exc': type(e).__name__}
+    if eng.hits and not hits['wrapped']:
+        return {'who': 'engine'}
+    if hits['wrapped'] and not eng.hits:
+        return {'who': 'wrapped'}
+    return {'who': 'nobody', 'events': [e.get('type') for e in sent]}
+
+
 def _classify(eng_hits, wrapped_hits, status, ctype, body):
     if eng_hits and not wrapped_hits:
         return {'who': 'engine'}
@@ -426,6 +464,18 @@ def _work(chunk):
     for path in chunk:
         for mname, mapping in maps.items():
             for ep in ENDPOINTS + (EXTRA_ENDPOINTS if path.count('/') <= 2 else []):
+                if path.count('/') <= 2 and ep == ENDPOINTS[0]:
+                    # the same path on a WebSocket scope
+                    ref = run_asgi(path, mapping, ep, True)
+                    got_ws = run_asgi_ws(path, mapping, ep)
+                    stats['runs'] += 2
+                    want_ws = 'engine' if ref['who'] == 'engine' else 'wrapped'
+                    if got_ws['who'] != want_ws:
+                        out.append(report.Violation(
+                            {'impl': 'asgi', 'kind': 'websocket_scope_misrouted', 'trigger': _trigger(path)},
+                            '[asgi mapping=%s endpoint=%r wrapped=True] a WebSocket scope for %r went to %r, want %s' % (mname, ep, path, got_ws, want_ws),
+                            {'harness': 'route_ws', 'app': 'asgi', 'path': path, 'mapping': mname, 'endpoint': ep, 'wrapped': True},
+                            weight=(0, len(path))))
                 for wrapped in (False, True):
                     for app, fn in (('wsgi', run_wsgi), ('asgi', run_asgi)):
                         if path == '' and app == 'wsgi' and False:
@@ -633,6 +683,12 @@ def replay(ctx, payload):
     top, base = make_tree()
     try:
         mapping = mappings(base)[r['mapping']]
+        if r['harness'] == 'route_ws':
+            ref = run_asgi(r['path'], mapping, r['endpoint'], True)
+            got = run_asgi_ws(r['path'], mapping, r['endpoint'])
+            want = 'engine' if ref['who'] == 'engine' else 'wrapped'
+            print('websocket scope went to', got, 'want', want)
+            return 1 if got['who'] != want else 0
         fn = run_wsgi if r['app'] == 'wsgi' else run_asgi
         got = fn(r['path'], mapping, r['endpoint'], r['wrapped'])
         v = judge(r['app'], r['path'], r['mapping'], mapping, r['endpoint'], r['wrapped'], base, got)
